@@ -26,6 +26,9 @@ pub fn plant(rule: &Rule, r: &mut Rng) -> Rule {
             EnvBlock::Special(x) => plant_into(x, r, &p),
             EnvBlock::None => {}
         }
+    } else if matches!(&out.ctx, EnvBlock::List(v) if !v.is_empty()) && r.chance(1, 3) {
+        // a context is as mandatory as the input: the absent segment goes into every alternative of the context instead
+        if let EnvBlock::List(v) = &mut out.ctx { for spec in v.iter_mut() { match spec { EnvSpec::One(e) => { if r.chance(1, 2) { plant_env(&mut e.before, r, &p, true) } else { plant_env(&mut e.after, r, &p, false) } } EnvSpec::Set(es) => for e in es.iter_mut() { if r.chance(1, 2) { plant_env(&mut e.before, r, &p, true) } else { plant_env(&mut e.after, r, &p, false) } } } } }
     } else {
         for t in out.input.iter_mut() { if let Term::Els(els) = t { plant_into(els, r, &p) } }
     }
@@ -36,6 +39,14 @@ fn plant_env(side: &mut Vec<El>, r: &mut Rng, p: &str, before: bool) {
     let lo = if before && side.first() == Some(&El::WordB) { 1 } else { 0 };
     let hi = if !before && side.last() == Some(&El::WordB) { side.len() - 1 } else { side.len() };
     let i = lo + r.below(hi - lo + 1);
+    // a third of the time the absent segment is a member of a structure (every member of a structure is mandatory): of one that is
+    // there already, or of a new `⟨C V x⟩` / `⟨x V⟩` / `⟨C x⟩`
+    if r.chance(1, 3) {
+        if let Some(El::Struct(items, _, _)) = side.iter_mut().find(|e| matches!(e, El::Struct(..))) { items.push(El::Ipa(p.to_string(), None)); return }
+        let items = match r.below(3) { 0 => vec![El::Grp('C', None, None), El::Grp('V', None, None), El::Ipa(p.to_string(), None)], 1 => vec![El::Ipa(p.to_string(), None), El::Grp('V', None, None)], _ => vec![El::Grp('C', None, None), El::Ipa(p.to_string(), None)] };
+        side.insert(i, El::Struct(items, None, None));
+        return;
+    }
     side.insert(i, El::Ipa(p.to_string(), None));
 }
 
